@@ -1,7 +1,9 @@
 /* C11 — heart_beat runs once per interval per enabled object; faults stay local.
  *
  * Explores, on the real src/backend.c (wrapper TU wrap/w_backend.c), all histories of bounded depth over
- *   {stop, tick, set_heart_beat(X,0|1|2), destruct(X), clone a heart-beat object (two programs)}   (free choices)
+ *   {stop, tick, set_heart_beat(X,0|1|2), destruct(X), clone a heart-beat object (two programs),
+ *    an uncaught error in an unrelated object outside any heart_beat (driver-level apply), a call_out of an unrelated
+ *    object that raises in the call_out phase of the next tick}   (free choices)
  * from every initial population (3 objects, each off / interval 1 / interval 2), with budgeted deviations
  * chosen lazily at the moment a heart_beat is about to be invoked inside a round:
  *   hbop  : the script this heart_beat runs {self off, other->set_heart_beat(0|1|2), destruct self/other,
@@ -33,6 +35,7 @@ static mobj M[NOBJ];
 static object_t *OB[NOBJ], *LOGGER;
 static int tickno, depth, maxticks, selftest, trunc_k, have_clone;
 static int choices_on;
+static int boom_pending;              /* a faulting call_out of the registry object is scheduled */
 /* round state */
 static volatile int in_round, round_insn, trunc_at, truncated, round_calls, grew;
 static int vi_op = -1, vi_tgt = -1, vi_val = -1;
@@ -124,6 +127,7 @@ static void fetch_clone (void) {
 }
 
 /* ------------------------------------------------------------------ model */
+static int booms_seen;
 static void new_epoch (int i, int n, int first_tick) { M[i].n = n; M[i].run_start = first_tick; M[i].last_call = -1; }
 
 static void model_clone (int n, int from_t, int first_tick) {
@@ -172,6 +176,9 @@ static int process_log (int in_tick) {
         if (!ok) fail_hist ("C11:harness-clone-failed", "clone inside heart_beat returned 0");
         else model_clone (val, !strcmp (op, "clone-t"), tickno + 1);
       } else if (!strcmp (op, "err")) err_by = id;
+    } else if (!strcmp (what, "boom")) {
+      vx_obs ("  unrelated object raises an uncaught error%s", in_tick ? " (call_out phase)" : "");
+      booms_seen++;
     }
   }
   return err_by;
@@ -262,7 +269,16 @@ static void do_tick (int with_choices) {
   if (vw_max_heart_beats () != max0) vx_count (C_GROW_IN_ROUND, 1);
   if (truncated) vx_count (C_TRUNC, 1);
 
+  int booms0 = booms_seen;
   int err_by = process_log (1);
+  if (booms_seen != booms0) {
+    /* the scheduled call_out fired: its error is caught inside call_out(), it must be reported and change nothing else */
+    boom_pending = 0;
+    svalue_t *e1 = safe_apply_master_ob ("query_errors", 0);
+    int n1 = (e1 && e1 != (svalue_t *) -1 && e1->type == T_ARRAY) ? e1->u.arr->size : 0;
+    if (n1 != nerr0 + 1 + (err ? 1 : 0)) fail_hist ("C11:error-not-reported", "call_out error: master error_handler saw %d errors in this tick", n1 - nerr0);
+    nerr0++;
+  } else if (boom_pending && !err) fail_hist ("C11:harness-lpc", "scheduled faulting call_out did not fire in a tick that reached the call_out phase");
   if (err) {
     vx_count (C_ERRORS, 1);
     vx_obs ("  round abandoned by an error (O%d)", err_by);
@@ -310,7 +326,7 @@ static void top_clone (int from_t, int n) {
 }
 
 static int canon (char *b, int len, int step) {
-  int n = snprintf (b, len, "s%d t%d f%d c%d mx%d idx%d todo%d|", step, tickno, heart_beat_flag, have_clone, vw_max_heart_beats (), vw_hb_index (), vw_num_hb_to_do ());
+  int n = snprintf (b, len, "s%d t%d f%d c%d mx%d idx%d todo%d chb%d bp%d|", step, tickno, heart_beat_flag, have_clone, vw_max_heart_beats (), vw_hb_index (), vw_num_hb_to_do (), id_of (current_heart_beat), boom_pending);
   for (int k = 0; k < vw_num_hb_objs (); k++) n += snprintf (b + n, len - n, "%d:%d:%d,", id_of (vw_hb_ob (k)), vw_hb_interval (k), vw_hb_ticks (k));
   n += snprintf (b + n, len - n, "|");
   for (int i = 0; i < NOBJ; i++) {
@@ -335,8 +351,8 @@ static void body (void) {
   int ticks = 0;
   for (int step = 0; step < depth; step++) {
     vx_state (cb, (size_t) canon (cb, sizeof cb, step));
-    /* 0 stop | 1 tick | 2.. shb(X,v) 4x3 | destruct(X) 4 | clone-t(1) clone-u(1) clone-t(2) */
-    int op = vx_choose_free (2 + NOBJ * 3 + NOBJ + 3, "step");
+    /* 0 stop | 1 tick | 2.. shb(X,v) 4x3 | destruct(X) 4 | clone-t(1) clone-u(1) clone-t(2) | unrelated uncaught error | schedule a faulting call_out */
+    int op = vx_choose_free (2 + NOBJ * 3 + NOBJ + 3 + 2, "step");
     if (op == 0) break;
     if (op == 1) {
       if (ticks >= maxticks) vx_child_exit (0);
@@ -354,11 +370,28 @@ static void body (void) {
       int i = op - NOBJ * 3;
       if (!live (i)) vx_child_exit (0);
       top_destruct (i);
-    } else {
+    } else if (op < NOBJ * 3 + NOBJ + 3) {
       int k = op - NOBJ * 3 - NOBJ;
       if (have_clone) vx_child_exit (0);
       top_clone (k != 1, k == 2 ? 2 : 1);
+    } else if (op == NOBJ * 3 + NOBJ + 3) {
+      /* an uncaught error outside any heart_beat: driver-level apply (same kind of error context as backend()) of a
+         function of an unrelated object without heart beat.  Nobody's heart beat may change. */
+      svalue_t *errs0 = safe_apply_master_ob ("query_errors", 0);
+      int n0 = (errs0 && errs0 != (svalue_t *) -1 && errs0->type == T_ARRAY) ? errs0->u.arr->size : 0;
+      svalue_t *r = hx_apply (LOGGER, "boom", 0);
+      vx_obs ("top: unrelated uncaught error -> %s", r ? "no error?!" : hx_last_error);
+      if (r) fail_hist ("C11:harness-lpc", "boom() did not raise");
+      svalue_t *errs1 = safe_apply_master_ob ("query_errors", 0);
+      int n1 = (errs1 && errs1 != (svalue_t *) -1 && errs1->type == T_ARRAY) ? errs1->u.arr->size : 0;
+      if (n1 != n0 + 1) fail_hist ("C11:error-not-reported", "unrelated error: master error_handler saw %d errors", n1 - n0);
+    } else {
+      if (boom_pending) vx_child_exit (0);
+      svalue_t *r = lg ("sched_boom", 0);
+      vx_obs ("top: unrelated object schedules a call_out that raises an uncaught error");
+      if (r) boom_pending = 1;
     }
+    booms_seen = 0;
     if (process_log (0) >= 0) fail_hist ("C11:harness-lpc", "error op outside a tick");
     if (vw_hb_index () < 0) vx_count (C_NEG_INDEX_BETWEEN, 1);
     check_status ("after op");
